@@ -245,6 +245,25 @@ def draw_targets(rng, n, k):
     return rng.sample(range(n), k)
 
 
+def coq_eval(ctx, name, text):
+    """ctx.coq_eval under a per-process file name (quick and thorough may run at the same time), scratch removed."""
+    import os
+    uniq = "%s_%s_%d" % (name, ctx.tier, os.getpid())
+    try:
+        return ctx.coq_eval(uniq, text)
+    finally:
+        try:
+            os.remove(os.path.join(ctx.work, uniq + ".v"))
+        except OSError:
+            pass
+
+
+def _degenerate_symplectic(S):
+    """True iff the symplectic matrix has a repeated singular value among its n largest ones (Bloch-Messiah degenerate case)."""
+    sv = np.sort(np.linalg.svd(np.array(S), compute_uv=False))[::-1][: len(S) // 2]
+    return bool(np.any(np.abs(np.diff(sv)) < 1e-6))
+
+
 # ========================================================================================
 # correspondence A: every _decompose / Gate.decompose against the model
 def _gate_case(rng):
@@ -298,7 +317,7 @@ def corr_gates(ctx, cases):
     lines.append("Eval vm_compute in map (fun c => (opt_sig (decompose_cmd F (Kops:=FO S2H IS2H RT) c), run_doc S2H IS2H RT c, "
                  "match decompose_cmd F (Kops:=FO S2H IS2H RT) c with Some l => run_docs S2H IS2H RT l | None => [] end, "
                  "residuals S2H IS2H RT (cg F c))) cases.")
-    ok, vals, raw = ctx.coq_eval("cases_gates", "\n".join(lines))
+    ok, vals, raw = coq_eval(ctx, "cases_gates", "\n".join(lines))
     if not ok:
         ctx.obligation("correspondence:gates:coq", False, raw)
         return
@@ -329,8 +348,13 @@ def corr_gates(ctx, cases):
             dev = max(np.abs(A1 - A2).max(), np.abs(d1 - d2).max())
             if dev > TOL:
                 problems.append("model: decomposition differs from documented transformation by %.2e at this input" % dev)
-        dev_impl = _gate_predicate(c, doc20)
         tag = c["gate"] + ("-dagger" if c["dag"] else "")
+        try:
+            dev_impl = _gate_predicate(c, doc20)
+        except Exception as e:
+            ctx.counterexample("decomp:%s:raises:%s" % (tag, type(e).__name__),
+                               "%s%s on modes %s cannot be executed on the Gaussian simulator: %r" % (c["gate"], ".H" if c["dag"] else "", c["targets"], e), data)
+            continue
         if dev_impl > TOL:
             ctx.counterexample("decomp:" + tag, "%s%s on modes %s: the executed decomposition deviates from the documented "
                                "transformation by %.2e" % (c["gate"], ".H" if c["dag"] else "", c["targets"], dev_impl), data)
@@ -395,7 +419,7 @@ def check_tables(ctx):
     names = [k for k, v in sorted(KIND_ID.items(), key=lambda kv: kv[1])]
     text = HEADER + ("Definition kinds := [kD; kX; kZ; kS; kR; kP; kBS; kMZ; ksMZ; kS2; kCX; kCZ; kF; kO 0; kO 1; kO 2; kO 3].\n"
                      "Eval vm_compute in map (fun tb => map (fun k => (t_prim tb k, t_dec tb k)) kinds) [tb_gaussian; tb_bosonic; tb_fock].\n")
-    ok, vals, raw = ctx.coq_eval("tables", text)
+    ok, vals, raw = coq_eval(ctx, "tables", text)
     if not ok:
         ctx.obligation("correspondence:tables", False, raw)
         return
@@ -419,7 +443,7 @@ def corr_compile(ctx, cases):
     lines.append(";\n".join(items) + "].")
     lines.append("Eval vm_compute in map (fun c => let r := compile F (Kops:=FO S2H IS2H RT) 4 (TB (fst c)) (snd c) in "
                  "(res_sig r, run_docs S2H IS2H RT (snd c), match r with Ok _ l => run_apply S2H IS2H RT l | _ => [] end)) cases.")
-    ok, vals, raw = ctx.coq_eval("cases_compile", "\n".join(lines))
+    ok, vals, raw = coq_eval(ctx, "cases_compile", "\n".join(lines))
     if not ok:
         ctx.obligation("correspondence:compile:coq", False, raw)
         return
@@ -444,7 +468,12 @@ def corr_compile(ctx, cases):
         dev_doc = None
         if gaussian_only and isig[0] == 0:
             # the implementation's behaviour on a simulator that decomposes everything down to D/S/R/BS
-            S, d = run_cmds_gaussian(c["n"], [[nm, ps, [c["pair"][i] for i in w], dg] for nm, ps, w, dg in c["cmds"]])
+            try:
+                S, d = run_cmds_gaussian(c["n"], [[nm, ps, [c["pair"][i] for i in w], dg] for nm, ps, w, dg in c["cmds"]])
+            except Exception as e:
+                ctx.counterexample("compile:gaussian:raises:%s" % type(e).__name__,
+                                   "program %s on modes %s cannot be executed on the Gaussian simulator: %r" % (c["cmds"], c["pair"], e), data)
+                continue
             A, dv = split20(docs20)
             Se, de = embed(c["n"], c["pair"], A, dv)
             dev_doc = float(max(np.abs(S - Se).max(), np.abs(d - de).max()))
@@ -466,9 +495,9 @@ def corr_compile(ctx, cases):
 def correspondence(ctx):
     rng = ctx.rng
     check_tables(ctx)
-    n1 = ctx.budget(120, 1500)
+    n1 = ctx.budget(250, 2500)
     corr_gates(ctx, [_gate_case(rng) for _ in range(n1)])
-    n2 = ctx.budget(90, 1200)
+    n2 = ctx.budget(200, 2000)
     corr_compile(ctx, [_prog_case(rng) for _ in range(n2)])
 
 
@@ -577,8 +606,10 @@ def search_interferometers(ctx, count):
         try:
             dev = check_interferometer(data)
         except Exception as e:  # a decomposition that raises on a valid unitary
-            ctx.counterexample("mesh:%s:raises:%s" % (mesh, type(e).__name__),
-                               "Interferometer(mesh=%s) on a %s unitary raised %r" % (mesh, cls, e), data)
+            sig = "mesh:%s:raises:%s" % (mesh, type(e).__name__)
+            if mesh == "sun_compact" and "determinant 1" in str(e):
+                sig = "mesh:sun_compact:raises-determinant-on-block-unitary"
+            ctx.counterexample(sig, "Interferometer(mesh=%s) on a %s unitary raised %r" % (mesh, cls, e), data)
             continue
         if dev > TOL_MAT:
             sig = "mesh:triangular-factor-order" if mesh == "triangular" else "mesh:%s:%s" % (mesh, cls)
@@ -726,7 +757,10 @@ def search_gtransform(ctx, count):
         try:
             dev = check_gtransform(data)
         except Exception as e:
-            ctx.counterexample("gaussian-transform:raises:%s" % type(e).__name__, "GaussianTransform on a %s symplectic raised %r" % (cls, e), data)
+            sig = "gaussian-transform:raises:%s" % type(e).__name__
+            if "not unitary" in str(e) and _degenerate_symplectic(S):
+                sig = "bloch-messiah:degenerate-singular-values-not-unitary"
+            ctx.counterexample(sig, "GaussianTransform on a %s symplectic raised %r" % (cls, e), data)
             continue
         if dev > TOL_MAT * max(1.0, float(np.abs(S).max()) ** 2):
             ctx.counterexample("gaussian-transform:" + cls + (":vacuum" if data["vacuum"] else ""),
@@ -827,7 +861,13 @@ def search_gaussian_prep(ctx, count):
         try:
             dev = check_gaussian_prep(data)
         except Exception as e:
-            ctx.counterexample("gaussian-prep:raises:%s:%s" % (cls, type(e).__name__), "Gaussian(V, r) for a %s state raised %r" % (cls, e), data)
+            sig = "gaussian-prep:raises:%s:%s" % (cls, type(e).__name__)
+            try:
+                if "not unitary" in str(e) and _degenerate_symplectic(dec.williamson(V)[1]):
+                    sig = "bloch-messiah:degenerate-singular-values-not-unitary"
+            except Exception:
+                pass
+            ctx.counterexample(sig, "Gaussian(V, r) for a %s state raised %r" % (cls, e), data)
             continue
         if dev > TOL_MAT * max(1.0, float(np.abs(V).max())):
             ctx.counterexample(_prep_signature(cls, V),
@@ -1057,14 +1097,14 @@ def replay(ctx, data, quiet=False):
         return dev > tol
     if kind == "gate":
         c = d["case"]
-        ok, vals, raw = ctx.coq_eval("replay_gate", HEADER + "Eval vm_compute in run_doc S2H IS2H RT %s.\n"
+        ok, vals, raw = coq_eval(ctx, "replay_gate", HEADER + "Eval vm_compute in run_doc S2H IS2H RT %s.\n"
                                      % c_cmd(c["gate"], c["params"], list(range(NMODES[c["gate"]])), c["dag"]))
         dev = _gate_predicate(c, vals[0])
         say("deviation of the executed decomposition from the documented transformation: %.3e" % dev)
         return dev > TOL
     if kind == "compile":
         c = d["case"]
-        ok, vals, raw = ctx.coq_eval("replay_compile", HEADER + "Eval vm_compute in run_docs S2H IS2H RT %s.\n"
+        ok, vals, raw = coq_eval(ctx, "replay_compile", HEADER + "Eval vm_compute in run_docs S2H IS2H RT %s.\n"
                                      % coq.coq_list([c_cmd(*x) for x in c["cmds"]]))
         S, dd = run_cmds_gaussian(c["n"], [[nm, ps, [c["pair"][i] for i in w], dg] for nm, ps, w, dg in c["cmds"]])
         A, dv = split20(vals[0])
